@@ -1,6 +1,87 @@
-//! C04 — not implemented yet.
+//! C04 — group_by_key is an exact partition of its input by key.
+//!
+//! Programs ending in (or containing) `gbk`, after arbitrary prefixes, inside join sides; both modes and
+//! all partition counts. Oracle (independent of the model): output keys are unique, the groups flatten to
+//! the input of the group_by_key as a multiset, and the whole result equals the plain-vector reference.
+
 use crate::ctx::Ctx;
+use crate::pipe::*;
+
+/// checks on the REAL output of a program whose last step is `gbk`: unique keys, exact partition
+fn gbk_oracle(cx: &mut Ctx, prog: &Prog, modes: &[Mode]) {
+    // input of the gbk = reference result of the prefix
+    let prefix = Prog { shape: prog.shape, src: prog.src.clone(), steps: prog.steps[..prog.steps.len() - 1].to_vec() };
+    let input = match reference(&prefix) { RefOut::Rows(r) => r, _ => return };
+    for m in modes {
+        if let Outcome::Rows(rows) = run_real(prog, *m) {
+            let idx = cx.reqs.len().saturating_sub(1);
+            let mut keys: Vec<V> = rows.iter().map(|r| match r { V::P(k, _) => (**k).clone(), o => o.clone() }).collect();
+            let n = keys.len();
+            keys.sort();
+            keys.dedup();
+            if keys.len() != n {
+                cx.oracle_fail(idx, "gbk-duplicate-key-in-output", format!("mode={} prog={}", m.enc(), prog.request(&m.enc())));
+            }
+            let mut flat: Vec<V> = vec![];
+            for r in &rows {
+                if let V::P(k, vs) = r { if let V::L(vs) = &**vs { for v in vs { flat.push(V::pair((**k).clone(), v.clone())); } } }
+            }
+            let mut a = flat; a.sort();
+            let mut b = input.clone(); b.sort();
+            if a != b {
+                cx.oracle_fail(idx, "gbk-groups-do-not-flatten-to-input", format!("mode={} prog={}", m.enc(), prog.request(&m.enc())));
+            }
+            cx.count("gbk-oracle:checked");
+        }
+    }
+}
 
 pub fn run(cx: &mut Ctx) {
-    cx.notes.push("C04: harness not implemented".to_string());
+    let o = CheckOpts { par_vs_seq: true, vs_reference: true };
+    // exhaustive: all keyed inputs of <= 5 (quick 4) rows over 3 keys x partitions 1..6
+    let maxlen = cx.budget(4, 5);
+    let mut inputs: Vec<Vec<V>> = vec![vec![]];
+    let mut frontier: Vec<Vec<V>> = vec![vec![]];
+    for _ in 0..maxlen {
+        let mut next = vec![];
+        for s in &frontier {
+            for k in 0..3i64 {
+                let mut t = s.clone();
+                t.push(V::pair(V::I(k), V::I(t.len() as i64)));
+                next.push(t);
+            }
+        }
+        inputs.extend(next.iter().cloned());
+        frontier = next;
+    }
+    let modes: Vec<Mode> = std::iter::once(Mode::Seq).chain((1..=6).map(Mode::Par)).collect();
+    for src in &inputs {
+        let p = Prog { shape: Shape::KV, src: src.clone(), steps: vec![Step::Gbk] };
+        check_prog(cx, &p, &modes, &o);
+    }
+    cx.exhaustive_blocks.push(format!("group_by_key on all keyed inputs of length <= {maxlen} over 3 keys x seq + par 1..6 ({} inputs)", inputs.len()));
+
+    // random: prefix (reorder-inert, so the known planner finding cannot interfere) ; gbk ; optional suffix
+    let rounds = cx.budget(300, 6000);
+    let mut done = 0;
+    while done < rounds {
+        let opts = GenOpts { max_steps: 5, max_rows: cx.budget(40, 200), barriers: done % 3 == 0, joins: done % 5 == 0, globals: false, nonlocal_batches: false };
+        let mut p = gen_prog_to(&mut cx.rng, &opts, Shape::KV, 0);
+        if !reorder_inert(&p) { continue; }
+        if matches!(reference(&p), RefOut::NestedJoin) { continue; }
+        p.steps.push(Step::Gbk);
+        let choices = partition_choices(p.src.len());
+        let modes = vec![Mode::Seq, Mode::Par(*cx.rng.pick(&choices)), Mode::Par(*cx.rng.pick(&choices))];
+        check_prog(cx, &p, &modes, &o);
+        gbk_oracle(cx, &p, &modes);
+        // and with a suffix / inside a join side
+        if done % 4 == 0 {
+            let mut q = p.clone();
+            q.steps.push(match cx.rng.below(3) { 0 => Step::Ungroup, 1 => Step::Glen, _ => Step::CombineValuesLifted(Comb::Count) });
+            check_prog(cx, &q, &modes, &o);
+            let left = Prog { shape: Shape::KV, src: gen_rows(&mut cx.rng, Shape::KV, 6), steps: vec![Step::Join(JoinKind::Left, Box::new(q))] };
+            if !matches!(reference(&left), RefOut::NestedJoin) { check_prog(cx, &left, &modes, &o); }
+        }
+        done += 1;
+    }
 }
